@@ -425,8 +425,23 @@ class Interp:
             sk = key.skeleton()
             for k in d:
                 if isinstance(k, Tpl) and k.skeleton() == sk:
+                    # same literal skeleton: the names are equal iff all symbolic integer parts are equal
+                    eqs = []
+                    ok = True
+                    for a, b in zip(key.parts, k.parts):
+                        if isinstance(a, str):
+                            continue
+                        if isinstance(a, SInt) and isinstance(b, SInt):
+                            eqs.append(a.t == b.t)
+                        elif a is not b:
+                            ok = False
+                    if ok and eqs and not self.ctx.check(z3.And(*eqs)):
+                        continue      # provably different names
                     raise Unsupported(f"dict lookup of {key} may alias key {k}")
                 if isinstance(k, str) and len(sk) > 0 and isinstance(sk[0], str) and k.startswith(sk[0]) and len(k) > len(sk[0]):
+                    rest = k[len(sk[0]):]
+                    if len(sk) == 2 and sk[1] is None and isinstance(key.parts[1], SInt) and not rest.lstrip("-").isdigit():
+                        continue      # "<prefix><int>" can never equal "<prefix><non-digits>"
                     raise Unsupported(f"dict lookup of {key} may alias key {k!r}")
         else:
             for k in d:
